@@ -4,6 +4,17 @@ from fractions import Fraction
 
 import numpy as np
 
+from .runner import Violation
+
+
+def exact(x, what="a value returned by verde"):
+    """Fraction of a float that verde produced; a NaN or infinity there is a
+    finding, not a harness error."""
+    x = float(x)
+    if not math.isfinite(x):
+        raise Violation("%s is not finite: %r" % (what, x))
+    return Fraction(x)
+
 EPS = float(np.finfo("float64").eps)
 TIE = Fraction(1, 10**9)
 
@@ -71,7 +82,7 @@ def match_line(values, models, start, stop):
             continue
         scale = max(abs(float(start)), abs(float(stop)), abs(float(m["last"])), 1e-300)
         tol = 8 * EPS * scale
-        err = max((abs(Fraction(float(v)) - x) for v, x in zip(values, nodes)), default=Fraction(0))
+        err = max((abs(exact(v, "a grid/line coordinate") - x) for v, x in zip(values, nodes)), default=Fraction(0))
         if err <= Fraction(tol):
             return k, ""
         why.append("max error %.3e > tol %.3e" % (float(err), tol))
